@@ -230,6 +230,24 @@ example : ((processParts 100300 [some ("tsbd", "30"), some ("ato", "1.5"), none]
 example : (processParts 100300 [some ("tsbd", "x"), none]).isErr = true := by decide
 example : (processParts 100300 [some ("periods", "3601"), none]).isErr = true := by decide
 
+/-- **A request that gets past `cfgFromRequest` has a safe configuration and an effective instant (after
+`timeoffset`) that is not before the start time** — what `calcWrapTimes`, `splitPeriod` and `lastPeriodStartTime`
+rely on when they subtract the start time. -/
+theorem c08_request_after_start (nowMS now' : Int) (parts : List Part) (c : C) (idx : Nat)
+    (h : cfgFromRequest nowMS parts = .ok now' c idx) : c.start * 1000 ≤ now' ∧ CfgOK nowMS c := by
+  unfold cfgFromRequest at h
+  cases hp : processParts nowMS parts with
+  | err => simp [hp] at h
+  | ok c1 i1 =>
+    simp only [hp] at h
+    generalize effNow nowMS c1 = n at h
+    by_cases hlt : n < c1.start * 1000
+    · rw [if_pos hlt] at h; cases h
+    · rw [if_neg hlt] at h
+      injection h with h1 h2 h3
+      subst h1; subst h2
+      exact ⟨by omega, c08_cfg_invariant nowMS parts c1 i1 hp⟩
+
 /-! ## malformed numbers are rejected -/
 
 theorem find?_key_isSome {α : Type} (l : List (String × α)) (key : String) (h : key ∈ l.map (·.1)) :
